@@ -22,6 +22,7 @@ TEXT_POOL = [
     b"{5}", b"OK", b'NO "x"', "café €".encode("utf-8"), b"a" * 70,
     b"two\r\nlines", b"line one\r\nOK \"fake\"\r\nline three", b"trailing\r\n",
     b'"', b"\\", b" lead", b"x)", b"(", b"  ",
+    b"t" * 1000, b"u" * 1024, ("w" * 600 + "é" * 200).encode("utf-8"), b"{12}", b"{3+}",
 ]
 
 
@@ -204,7 +205,7 @@ class SimServer:
                     code = (name, None)
             elif c == 3:
                 name = ch.srv.pick("enc.codeparam", wire.RESP_CODES_PARAM)
-                code = (name, ch.srv.pick("enc.codeparamval", [b"x", b"a b", b'q"q', b"sieve://h/", b""]))
+                code = (name, ch.srv.pick("enc.codeparamval", [b"x", b"a b", b'q"q', b"sieve://h/", b"", b"p" * 1000, b"P" * 1024]))
             t = ch.srv.weighted("enc.text", [3, 2, 1, 5])
             if t == 1:
                 text = None
@@ -248,7 +249,7 @@ class SimServer:
         st = conn.state
         out = [(b"IMPLEMENTATION", cfg.implementation.encode())]
         sasl = cfg.sasl_pre if (not st.tls or cfg.sasl_post is None) else cfg.sasl_post
-        if sasl is not None:
+        if sasl is not None and sasl is not False:
             out.append((b"SASL", " ".join(sasl).encode()))
         out.append((b"SIEVE", cfg.sieve.encode()))
         if cfg.starttls and not st.tls:
@@ -648,6 +649,8 @@ class SimServer:
         if self.cfg.starttls and not st.tls:
             rec.note = "auth-on-plain"
         announced = cfg.sasl_pre if (not st.tls or cfg.sasl_post is None) else cfg.sasl_post
+        if announced is False:
+            announced = None
         seen = {"conn": conn.id, "mech": mech, "announced": list(announced or []), "channel": conn.channel,
                 "tls": st.tls, "decoded": None, "accepted": None, "scope": scope, "steps": 0}
         self.sasl_seen.append(seen)
